@@ -5,7 +5,7 @@
 From Coq Require Import Extraction ExtrOcamlBasic NArith ZArith List String.
 From FitV Require Import Model.Values Model.Crc Spec.CrcSpec Model.Bytes Model.Base Model.Profile
   Model.Reflect Model.IO Model.Header Model.Components Model.Route Model.Decode.
-From FitV Require Import Gen.RoutingData Gen.ProfileData Spec.ProfileWf Spec.RouteSpec Spec.ComponentSpec.
+From FitV Require Import Gen.RoutingData Gen.ProfileData Spec.ProfileWf Spec.RouteSpec Spec.ComponentSpec Spec.FitSyntax.
 
 Extraction Language OCaml.
 Extraction "fitmodel.ml"
@@ -20,5 +20,6 @@ Extraction "fitmodel.ml"
   Profile.mesg_all_invalid Profile.get_field Profile.known_msg
   RoutingData.accessors
   ComponentSpec.spec_accumulate ComponentSpec.spec_csd_distance_raw ComponentSpec.spec_csd_speed ComponentSpec.spec_enhanced
+  FitSyntax.denote FitSyntax.sorted_unkm FitSyntax.sorted_unkf FitSyntax.ser_records
   RouteSpec.routing_wf RouteSpec.routing_wf_report RouteSpec.find_slot RouteSpec.ft_valid RouteSpec.expands
   ProfileWf.profile_wf ProfileWf.profile_wf_report ProfileWf.gotype_of_fit ProfileWf.invalid_of_fit.
